@@ -76,6 +76,8 @@ def is_simple(t):
 def short(t, rng=None):
     """Shorthand string of a type if it has one (without quotes), else None."""
     k = t[0]
+    if k == "raw":
+        return None
     if k == "prim":
         if rng is not None and t[1] in ALIAS_OF and rng.random() < 0.4:
             return rng.choice(ALIAS_OF[t[1]])
@@ -132,6 +134,8 @@ def ty_yaml(t, rng=None, expanded_p=0.25):
     if use_short:
         return q(s)
     k = t[0]
+    if k == "raw":
+        return t[1]     # YAML text injected verbatim (rule-violation tests)
     if k == "named":
         return "!generic {name: " + q(t[1]) + ", args: [" + ", ".join(ty_yaml(a, rng, expanded_p) for a in t[2]) + "]}"
     if k == "opt":
